@@ -185,8 +185,8 @@ def candidate_values(od, p, rng):
 def make_scenarios(ctx, od):
     rng = ctx.rng
     pool, extra = param_pool()
-    per_sampler = ({"random": 60, "tpe": 60, "tpe_mv": 70, "qmc": 50, "gp": 12, "nsga2": 50, "nsga3": 25, "partial": 40,
-                    "brute": 25, "grid": 25} if ctx.quick else
+    per_sampler = ({"random": 50, "tpe": 50, "tpe_mv": 60, "qmc": 40, "gp": 10, "nsga2": 40, "nsga3": 20, "partial": 30,
+                    "brute": 20, "grid": 20} if ctx.quick else
                    {"random": 700, "tpe": 700, "tpe_mv": 800, "qmc": 600, "gp": 120, "nsga2": 500, "nsga3": 300,
                     "partial": 400, "brute": 300, "grid": 300})
     scs = []
